@@ -398,6 +398,7 @@ def _abc_case(args):
     try:
         case = x03.gen_case(rng, 0)
         case['extra_cols'] = False
+        case['padded'] = False        # this suite writes its own cell table with plain identifiers (zero padding is X03's)
         x03.write_csvs(case, d)
         labels = list(scn['labels'])
         cells = [f'cell{r["cell"]}' for r in case['cel']]
